@@ -42,7 +42,7 @@ def random_lattice(rng, family=None, rotate=None, scale=1.0):
 
 def hopping_system(seed, n_frames=60, n_diff=3, n_sites=5, n_frame_atoms=2, family=None, rotate=None, labels=None,
                    diff_symbol='Li', frame_symbols=('O', 'P'), vib=0.12, hop_prob=0.15, int_shift=True,
-                   site_positions=None, time_step=1e-15, species_cls='Element', temperature=600.0):
+                   site_positions=None, time_step=1e-15, species_cls='Element', temperature=600.0, interleave=False):
     """Diffusing atoms hop between labelled sites with Gaussian vibration; framework atoms vibrate in place.
 
     Returns (trajectory, sites_structure, info)."""
@@ -97,6 +97,17 @@ def hopping_system(seed, n_frames=60, n_diff=3, n_sites=5, n_frame_atoms=2, fami
     else:
         mk = Element if species_cls == 'Element' else Species
     species = [mk(diff_symbol)] * n_diff + [mk(frame_symbols[b % len(frame_symbols)]) for b in range(n_frame_atoms)]
+    if interleave:
+        # atoms of the different species alternate in the atom list (Li, O, Li, P, ...), as in files that are not grouped by element
+        order = []
+        a_, b_ = list(range(n_diff)), list(range(n_diff, n_diff + n_frame_atoms))
+        while a_ or b_:
+            if a_:
+                order.append(a_.pop(0))
+            if b_:
+                order.append(b_.pop(0))
+        species = [species[k] for k in order]
+        coords = coords[:, order]
     traj = Trajectory(species=species, coords=coords, lattice=lat.matrix, time_step=time_step,
                       metadata={'temperature': temperature})
     return traj, sites, {'lattice': lat, 'labels': list(labels), 'site_positions': site_positions}
